@@ -1127,8 +1127,11 @@ func (g *g) heredoc(n string) string {
 	}
 	nl := []int{1, 2, 0, 3, 4}[g.ch.Intn(5, "hd_lines")]
 	for i := 0; i < nl; i++ {
-		k := g.ch.Intn(14, "hd_line")
+		k := g.ch.Intn(15, "hd_line")
 		line := ""
+		if k == 14 && h.Quoted {
+			k = 0
+		}
 		switch k {
 		default:
 			line = g.pick("hd_plain", "line", "a b  c", "é 日", "#not a comment", "; | & ( )", "'single' \"double\"", "}", "cr\r", "\uFFFD e\u0301 \u00a0", "\U0001F600\u0080\f")
@@ -1207,6 +1210,12 @@ func (g *g) heredoc(n string) string {
 		case 13:
 			lit += `a\qb $` + "\n"
 			line = `a\qb $`
+		case 14:
+			// a line continuation: the next line, though it looks like the
+			// delimiter, is the rest of this line
+			lit += "cont" + delim + "\n"
+			line = "cont\\\n" + delim
+			g.f("heredoc_continuation_before_delimiter_lookalike")
 		}
 		body.WriteString(line + "\n")
 	}
